@@ -12,10 +12,11 @@ TListing == Is("Listing") /\ Listing(E.cls, SetOf(E.named)) /\ Consume
 TDump == Is("Dump") /\ Dump(SetOf(E.perEp), SetOf(E.byModel), E.count) /\ Consume
 TProbe == Is("Probe") /\ Probe(E.st) /\ Consume
 THealth == Is("HealthDone") /\ HealthDone(E.status) /\ Consume
+TFleet == Is("Fleet") /\ Fleet(SetOf(E.bystander), E.blamed, E.disabled) /\ Consume
 TMetrics == Is("Metrics") /\ Metrics(E.kinds) /\ Consume
 \* "Panic" and "Hang" events have no specification step: a trace containing one is rejected
 TraceInit == Init /\ l = 1
-TraceNext == TReset \/ TListing \/ TDump \/ TProbe \/ THealth \/ TMetrics
+TraceNext == TReset \/ TFleet \/ TListing \/ TDump \/ TProbe \/ THealth \/ TMetrics
 TraceSpec == TraceInit /\ [][TraceNext]_tvars
 HW == HWMark(l)
 =============================================================================
